@@ -170,8 +170,35 @@ def wiring_checks(ctx):
               "_pop_count_layer recurses on %s" % ast.unparse(r[-1].value.args[0]))
 
 
+def optional_carry_checks(ctx):
+    """The adders take an optional carry-in and test it by truthiness (`if not cin`, `if (cin)`): that is a presence
+    test only while a Var is always truthy, i.e. while Var defines neither __bool__ nor __len__."""
+    R = "C12.optional"
+    cnf = ctx.repo.module("cnf")
+    var = ctx.cls("cnf:Var")
+    tests = []
+    for name in ("full_adder", "saturate_adder", "ripple_carry", "ripple_saturate", "half_adder"):
+        f = ctx.fn("cnf:CNF." + name)
+        opt = [p for p in f.params if p != "self" and (f.param_annotation(p) is not None and "Optional" in ast.unparse(f.param_annotation(p)))]
+        defaults = {a.arg for a, d in zip(f.node.args.args[len(f.node.args.args) - len(f.node.args.defaults):], f.node.args.defaults) if isinstance(d, ast.Constant) and d.value is None}
+        names = set(opt) | defaults | ({"cin"} if name in ("ripple_carry", "ripple_saturate") else set())
+        for st in statements(f.node):
+            t = st.test if isinstance(st, (ast.If, ast.While)) else None
+            for node in ([t] if t is not None else []) + [x.test for x in ast.walk(st) if isinstance(x, ast.IfExp)]:
+                bare = node.operand if isinstance(node, ast.UnaryOp) and isinstance(node.op, ast.Not) else node
+                if isinstance(bare, ast.Name) and bare.id in names:
+                    tests.append((f, node))
+    truthy_hooks = [m for m in ("__bool__", "__len__") if m in var.methods]
+    for f, node in tests:
+        ctx.check(not truthy_hooks, R, f, "presence test `%s`" % ast.unparse(node), "`%s` tests whether a carry was supplied (a Var is always truthy)" % ast.unparse(node),
+                  "%s tests its optional carry by truthiness (`%s`) but Var defines %s: a supplied literal that evaluates false (e.g. a negated one) is treated as no carry at all, "
+                  "and the adder silently degrades to a half adder" % (f.qual, ast.unparse(node), truthy_hooks), node)
+    ctx.require(len(tests) >= 2, "only %d truthiness tests of an optional carry found" % len(tests))
+
+
 def check(ctx):
     te = TermEval(ctx.repo)
+    optional_carry_checks(ctx)
     gadget_checks(ctx, te)
     emission_checks(ctx, te)
     wiring_checks(ctx)
@@ -181,8 +208,12 @@ def check(ctx):
                                            "s_val     = (~a | ~b | cin) & (~a | b | ~cin)", "s_val     = (~a | ~b | cin) & (~a | b | cin)"), "C12.gadget")
     control(ctx, mod, "feed the sum into the carry chain",
             lambda s: variants.in_function(s, "sweetpea/_internal/core/cnf.py", "CNF.ripple_carry", "cin = c", "cin = s"), "C12.wiring")
+    control(ctx, mod, "Var grows a polarity __bool__",
+            lambda s: variants.replace_text(s, "sweetpea/_internal/core/cnf.py", "    def __int__(self) -> int:\n        return self._val\n",
+                                            "    def __int__(self) -> int:\n        return self._val\n\n    def __bool__(self) -> bool:\n        return self._val > 0\n"), "C12.optional")
     control(ctx, mod, "Var.__invert__ returns the variable itself",
             lambda s: variants.in_function(s, "sweetpea/_internal/core/cnf.py", "Var.__invert__", "return Var(-self._val)", "return Var(self._val)"), "C12")
     ctx.min_instances("C12.gadget", 5)
+    ctx.min_instances("C12.optional", 2)
     ctx.min_instances("C12.emission", 9)
     ctx.min_instances("C12.wiring", 20)
